@@ -279,16 +279,19 @@ theorem pipe_invariant (cap k : Nat) (h0 : 0 < cap) (h1 : 2 * cap ≤ 2 ^ k) (ls
   run_PTInv _ ls hl (PTInv.init cap k h0 (by omega))
 
 /-- **pipe_multi_producer_safe**: slot safety and FIFO hand-out for the pipeline pair, any number
-of producer threads on the shared sender; mutual exclusion inside `push` and inside `pop`. -/
+of producer threads on the shared sender; mutual exclusion inside `push`, among drop-oldest producers
+inside `pop`, and between a producer and the receiver inside `pop`. -/
 theorem pipe_multi_producer_safe (cap k : Nat) (h0 : 0 < cap) (h1 : 2 * cap ≤ 2 ^ k) (ls : List Label)
     (hl : ∀ l ∈ ls, PipeLabel l) (i j : Nat) :
     let s := run (pinit cap k) ls
     s.ring.bad = [] ∧ s.ring.outs = s.ring.log.take s.ring.hcount ∧
     (holdsPush (s.pp i) = true → holdsPush (s.pp j) = true → i = j) ∧
+    (holdsPopP (s.pp i) = true → holdsPopP (s.pp j) = true → i = j) ∧
     (holdsPopP (s.pp i) = true → holdsPopR s.rp = false) := by
   have h := pipe_invariant cap k h0 h1 ls hl
-  refine ⟨h.ring.noBad, h.ring.outsEq, fun a b => ?_, fun a => ?_⟩
+  refine ⟨h.ring.noBad, h.ring.outsEq, fun a b => ?_, fun a b => ?_, fun a => ?_⟩
   · have := (h.l.plockIff i).1 a; have := (h.l.plockIff j).1 b; simp_all
+  · have := (h.l.poplockP i).1 a; have := (h.l.poplockP j).1 b; simp_all
   · have := (h.l.poplockP i).1 a
     cases hc : holdsPopR (run (pinit cap k) ls).rp with
     | false => rfl
@@ -307,17 +310,32 @@ theorem pipe_no_slot_race (cap k : Nat) (h0 : 0 < cap) (h1 : 2 * cap ≤ 2 ^ k) 
 
 /-- **pipe_no_dup_no_reorder** + conservation for the pipeline pair: what `pop` handed out (a prefix
 of the pushed values) is an interleaving of what `recv` returned and what drop-oldest discarded;
-the received samples are a subsequence of the pushed ones. -/
+the received samples are a subsequence of the pushed ones, and so is each producer's projection. -/
 theorem pipe_no_dup_no_reorder (cap k : Nat) (h0 : 0 < cap) (h1 : 2 * cap ≤ 2 ^ k) (ls : List Label)
     (hl : ∀ l ∈ ls, PipeLabel l) :
     let s := run (pinit cap k) ls
-    Interleave s.recvd s.droppedOld (s.ring.log.take s.ring.hcount) ∧ List.Sublist s.recvd s.ring.log := by
+    Interleave s.recvd s.droppedOld (s.ring.log.take s.ring.hcount) ∧ List.Sublist s.recvd s.ring.log ∧
+    ∀ i : Nat, List.Sublist (s.recvd.filter (fun x => x.1 == i)) (s.ring.log.filter (fun x => x.1 == i)) := by
   intro s
   have hg : GInv s := run_GInv _ ls (GInv.init _ cap (2 ^ k))
   have ho := (pipe_invariant cap k h0 h1 ls hl).ring.outsEq
   unfold GInv at hg
   rw [ho] at hg
-  exact ⟨hg, hg.sub_left.trans (List.take_sublist _ _)⟩
+  have hsub := hg.sub_left.trans (List.take_sublist _ _)
+  exact ⟨hg, hsub, fun i => hsub.filter _⟩
+
+/-- **pipe_slot_safety_drop**: pipeline pair — whenever no thread is inside `push`/`pop`, `Drop for
+SpscRing` drops exactly the queued samples, each once, and leaves no slot initialised. -/
+theorem pipe_slot_safety_drop (cap k : Nat) (h0 : 0 < cap) (h1 : 2 * cap ≤ 2 ^ k) (ls : List Label)
+    (hl : ∀ l ∈ ls, PipeLabel l)
+    (hq : (run (pinit cap k) ls).plock = none ∧ (run (pinit cap k) ls).poplock = none) :
+    let r := (run (pinit cap k) ls).ring
+    r.drop.2 = r.log.drop r.hcount ∧ r.drop.1.bad = [] ∧ ∀ i, i < r.mask + 1 → r.drop.1.slots i = none := by
+  have h := (pipe_invariant cap k h0 h1 ls hl).ring
+  have e1 : (run (pinit cap k) ls).puView = none := by simp [St.puView, hq.1]
+  have e2 : (run (pinit cap k) ls).poViewR = none := by simp [St.poViewR, hq.2]
+  rw [e1, e2] at h
+  exact ring_drop_spec h
 
 /-- non-vacuity for the pipeline pair: two producers on the shared sender, capacity 1 (the second
 send overflows: drop-oldest), the receiver gets the newer sample -/
